@@ -230,11 +230,20 @@ def t1(rep, F):
         rep.fail_closed("T1: parse_date_yymmdd not found")
     else:
         pivots = []
+        # the century decision: an `if <local> <op> <literal>` whose branches add 2000 / 1900 to that local
         for n in walk(home["body"]):
-            if n.get("k") == "bin" and n.get("op") in ("<=", "<", ">=", ">") and isinstance(lit_val(n.get("r")), int):
-                l = peel(n["l"])
-                if isinstance(l, dict) and l.get("k") == "local" and "year" in l.get("name", ""):
-                    pivots.append((n["op"], lit_val(n["r"])))
+            if n.get("k") != "if":
+                continue
+            c = peel(n.get("cond"))
+            if not (isinstance(c, dict) and c.get("k") == "bin" and c.get("op") in ("<=", "<", ">=", ">")
+                    and isinstance(lit_val(c.get("r")), int)):
+                continue
+            l = peel(c["l"])
+            if not (isinstance(l, dict) and l.get("k") == "local"):
+                continue
+            lits = {lit_val(x) for x in walk([n.get("then"), n.get("else")]) if x.get("k") == "lit"}
+            if lits & {1900, 2000}:
+                pivots.append((c["op"], lit_val(c["r"])))
         r["pivot"] = pivots
         r["instances"] += 1
         if pivots != [("<=", 49)] and pivots != [("<", 50)]:
